@@ -14,6 +14,10 @@ CLAIMS = {
    technique="typestate extraction: abstract path exploration of the thread handlers over the finite (thread_state x event) domain, compared with the documented FSM; error-propagation analysis to main",
    text="Exhaustive over the abstract domain: pre_thread() is explored (thread.c inlined, infrastructure calls non-deterministic) for all 256 value bytes x 6 thread states; accept/reject and the post-state of every accepting path are compared with the documented state machine; thread_set_state's published view (is_running, is_active, state and TID channels) is evaluated for all 6 states; model_ovni_finish is evaluated on all 1- and 2-thread state combinations and its failure is followed call site by call site to main's exit status. Not decided: that the timeline shows the state at every instant (depends on patch-bay propagation, see C06).",
    design_ref="§4 C04"),
+ "C08": dict(
+   technique="abstract evaluation of chan_push/chan_pop on abstract stacks; enter/leave pairing and injectivity of the constant dispatch tables vs. the catalogue's PAIR macros; typestate evaluation of per-model thread-state guards and end-of-trace lint",
+   text="chan_pop/chan_push are explored on abstract stacks (empty, 1, 2, capacity-1, capacity, top equal/different, duplicate flags) and must implement match-the-top / refuse-full-stack exactly; for all 8 models every PAIR_x (and frozen hand-written) enter/leave pair must push and pop the same value on the same channel, and every (channel,value) must have exactly one enter and one leave event (dispatch tables evaluated exactly); every declared event is evaluated under the 6 consistent (running,active,out-of-CPU) thread states against the model's frozen precondition; each model's finish hook is evaluated in linter mode with open regions and its failure followed to main. Not decided: that a value 'means what its name documents' when both sides are swapped consistently.",
+   design_ref="§4 C08"),
  "C14": dict(
    technique="exhaustive abstract evaluation of the version predicates over {0,1,2}^6 and of the enable/event gating functions over their finite outcome domains (clang CFG path exploration)",
    text="version_is_compatible and the open-coded test in ovni_version_check_str are evaluated from their CFGs on all 729 (want,have) triples over {0,1,2} (every ordering of major/minor/patch) and must equal the semver relation; should_enable, model_version_probe (0-2 threads x {-1,0,1}), model_probe ({-1,0,1} x enable_all) and model_event (registered x enabled x hook result) are evaluated over their complete finite outcome domains; each model's probe must use its own spec; every version_parse result must be tested. Not decided: version_parse's handling of malformed strings (strtol semantics).",
